@@ -922,6 +922,17 @@ var blockRules = map[BlockKind]blockRule{
 		},
 		onClose: func(source []byte, block *Block) []*Block {
 			// "Blank lines preceding or following an indented code block are not included in it."
+			if n := len(block.inlineChildren); n >= 2 {
+				// A code block that ends at EOF without a line ending
+				// has a synthetic soft line break as its last child.
+				// If that last line is blank, the break is dropped along with it.
+				last, prev := block.inlineChildren[n-1], block.inlineChildren[n-2]
+				if last.Kind() == SoftLineBreakKind && last.Span().Len() == 0 &&
+					prev.Kind() == TextKind && isBlankLine(spanSlice(source, prev.Span())) {
+					block.inlineChildren[n-1] = nil // free for GC
+					block.inlineChildren = block.inlineChildren[: n-1 : n-1]
+				}
+			}
 			for i := block.ChildCount() - 1; i >= 0; i-- {
 				child := block.inlineChildren[i]
 				if child.Kind() != TextKind || !isBlankLine(spanSlice(source, child.Span())) {
